@@ -90,6 +90,9 @@ class C10(Prop):
                 Vp.append(row)
             if sum(x for row in Vp for x in row if x is not None) <= 0:
                 continue
+            if kind == "ints" and i % 3 == 2 and m >= 2:      # two alternatives with the same total, distributed differently over the voters
+                a, b = rng.sample(range(m), 2); col = [row[a] for row in Vp]; rng.shuffle(col)
+                for row, x in zip(Vp, col): row[b] = x
             if kind == "ints" and i % 3 == 1:      # the same utilities in another unit, down to the subnormals and up to the top of the range (exact powers of two): shares do not change
                 u = 2.0 ** [-1070, -1074, -1040, -300, 1000, -1060][(i // 3) % 6]
                 Vp = [[x * u for x in row] for row in Vp]; kind = "ints_unit"
@@ -126,6 +129,9 @@ class C10(Prop):
                 return ("wrong_score", "%s score of alternative %d is %r, textbook %s" % (case["rule"], j, sc[j], want[j]))
         if case["method"] == "scf":
             mx = max(sc); maxi = [j + fix for j in range(m) if sc[j] == mx]
+            if "V" in case and str(case.get("family", "")).startswith("util_ints"):
+                # integer (or exactly scaled integer) utilities: the column sums are exact, so alternatives with equal totals have EQUAL shares and all of them are maximal
+                mxe = max(want); maxi = [j + fix for j in range(m) if want[j] == mxe]
             out = obs["out"]
             if case["tb"] == "accept":
                 if out != maxi:
